@@ -17,6 +17,8 @@ type C01Case struct {
 	// GoTypes: numeric columns of t (and of t2: s<i> shares the type of column i) that are handed to
 	// the engine as natively built Go values of that type instead of float64
 	GoTypes map[string]string `json:"go_types,omitempty"`
+	// Opts: options that must not change the meaning of a query that does not use their alternative syntax
+	Opts Opts `json:"opts,omitempty"`
 }
 
 func init() {
@@ -27,7 +29,7 @@ func init() {
 			"LIKE-hostile strings included; a third of the numeric columns are handed to the engine as native Go values of another numeric type: int*, uint*, float32), a second table t2 for IN-subqueries and a predicate tree (depth<=5) over = != <> < <= > >= / [NOT] IN / " +
 			"IN (SELECT..) / [NOT] BETWEEN / [NOT] LIKE / IS [NOT] NULL|TRUE|FALSE / AND OR NOT; oracle = independent reference filter " +
 			"(sequence equality) for p and NOT(p), plus engine-vs-engine rewrites (BETWEEN -> >= AND <=, NOT IN -> NOT(IN), NOT LIKE -> NOT(LIKE)). " +
-			"The predicate, its negation and the rewrites run one after the other on the same input object; a quarter of the IN-subqueries read the filtered table itself. Non-trivial: >=2 rows and 0 < kept < n. Distinct = distinct JSON encodings of (doc, predicate).",
+			"The predicate, its negation and the rewrites run one after the other on the same input object; a quarter of the IN-subqueries read the filtered table itself; a quarter of the cases run under PostgresEscapingDialect and/or IdiomaticArrays (the queries use neither double quotes nor brackets, string pools include caseless multi-byte text). Non-trivial: >=2 rows and 0 < kept < n. Distinct = distinct JSON encodings of (doc, predicate).",
 		Assumptions: []string{
 			"columns hold non-NULL values of one scalar kind; NULL only under IS [NOT] NULL (as the statement says)",
 			"no backslash in LIKE patterns (escape semantics unspecified)",
@@ -84,6 +86,10 @@ func genC01(t *rapid.T) any {
 	}
 	pred := genPred(t, tb, ps, rapid.IntRange(0, 5).Draw(t, "depth"), "p")
 	c := &C01Case{Doc: map[string]any{"t": tb.Rows, "t2": t2.Rows}, Pred: pred}
+	if rapid.IntRange(0, 3).Draw(t, "withopts") == 0 {
+		b := rapid.IntRange(1, 3).Draw(t, "optbits")
+		c.Opts = Opts{PG: b&1 != 0, Arrays: b&2 != 0}
+	}
 	c.GoTypes = genGoTypes(t, tb.Cols, "gotypes")
 	for i, col := range tb.Cols {
 		if typ, ok := c.GoTypes[col.Name]; ok {
@@ -196,6 +202,9 @@ func checkC01(c *C01Case) Result {
 	if len(c.GoTypes) > 0 {
 		res.Labels = append(res.Labels, "native-go-numeric-columns")
 	}
+	if c.Opts.PG || c.Opts.Arrays {
+		res.Labels = append(res.Labels, "options:"+c.Opts.String())
+	}
 	res.NonTrivial = len(rows) >= 2 && len(keep) > 0 && len(keep) < len(rows)
 
 	live := c.engineDoc()
@@ -203,7 +212,7 @@ func checkC01(c *C01Case) Result {
 	if sql == "" {
 		sql = "SELECT * FROM t WHERE " + sq.Render(c.Pred, nil)
 	}
-	out := Run(live, sql, Opts{})
+	out := Run(live, sql, c.Opts)
 	res.Execs++
 	if !out.OK() {
 		res.Violation = fmt.Sprintf("%s\n  expected rows %s\n  got %s", sql, val.JSON(keep), out.Describe())
@@ -215,7 +224,7 @@ func checkC01(c *C01Case) Result {
 	}
 	// negation: complement, in source order
 	nsql := "SELECT * FROM t WHERE NOT (" + sq.Render(c.Pred, nil) + ")"
-	nout := Run(live, nsql, Opts{})
+	nout := Run(live, nsql, c.Opts)
 	res.Execs++
 	if !nout.OK() || !seqEqual(nout.Rows, drop) {
 		res.Violation = fmt.Sprintf("negation does not select the complement: %s\n  expected rows %s\n  got %s", nsql, val.JSON(drop), nout.Describe())
@@ -228,7 +237,7 @@ func checkC01(c *C01Case) Result {
 	// defining expansions, engine vs engine
 	if rw, changed := rewriteSugar(c.Pred); changed {
 		rsql := "SELECT * FROM t WHERE " + sq.Render(rw, nil)
-		rout := Run(live, rsql, Opts{})
+		rout := Run(live, rsql, c.Opts)
 		res.Execs++
 		if !rout.OK() || !seqEqual(rout.Rows, out.Rows) {
 			res.Violation = fmt.Sprintf("sugar and its expansion disagree:\n  %s -> %s\n  %s -> %s", sql, val.JSON(out.Rows), rsql, rout.Describe())
